@@ -38,6 +38,10 @@ CHECKS = {
   technique='property-based testing (Hypothesis): differential between opacity modes (k-table built by repeating the cross-section table vs cross-section mode on freshly built worlds) and Jensen-inequality / unit-interval validity predicates for non-degenerate k-distributions',
   text='Generated worlds, quadrature weights (1-20 points) and per-point factors; transmission, emission (1-6 Gauss points) and direct-image spectra in k-table mode are compared with cross-section mode on equivalent data; for general factors the layer transmittance must lie in [0,1] and not fall below the transmittance from the weight-averaged coefficient; exploration level.',
   note='In-memory KTable subclasses (file readers in C14); emission comparison carries the licensed e^-10 relative slack; Jensen clause skips layers already saturated in the cross-section run.'),
+ 'C13': dict(
+  technique='property-based testing (Hypothesis): differential between restricted and full evaluations of the same model (sub-range, observation range, cutoff_grid=False), binned differential, and opacity-level bit-equality / bracketing predicates on own and foreign grids (cross-section and k-table layouts)',
+  text='Generated worlds whose molecules sit on identical, nested, offset or independent native grids; spectra computed on a sub-range and on an observation range are compared point by point and bin by bin with the full native computation (licensed cut-off slack modelled), and Opacity.opacity is checked for unchanged own points and bracketed foreign points; exploration level.',
+  note='Binning clause judged on native spacing <= 1/4 of the widest bin (narrower than the statement); cut-off slack e^-10 as the saturation test minimises over the computed wavenumbers.'),
 }
 
 NOT_APPLICABLE = {}
